@@ -1,7 +1,7 @@
 #!/bin/sh
 # usage: g2.sh <patch> <grammar|kind|-> <Cxx>...   dev helper: patched COPY of /repo (never touches /repo)
 patch="$1"; gr="$2"; shift 2
-R=/var/tmp/repo2
+R=${VERIF_COPY_DIR:-/var/tmp/repo2}
 rm -rf $R; mkdir -p $R; rsync -a --exclude target --exclude .git /repo/ $R/
 (cd $R && patch -p1 -s < "$patch") || exit 3
 cd /verif; export VERIF_EVIDENCE_DIR=/var/tmp/ev-dev
